@@ -12,6 +12,7 @@ Definition send_now (fd len : Z) : M Z :=
   let '(sent, err) := r in
   if sent <? 0 then throw (SysErr err)
   else if (sent =? 0) && (0 <? len) then throw (LogicErr 1)   (* "unexpected send result" *)
+  else if len <? sent then stuck 1      (* assert(sent <= size): remove_prefix beyond the view is undefined *)
   else ret sent.
 
 (* ReceiveNow *)
@@ -20,6 +21,7 @@ Definition receive_now (fd size : Z) : M Z :=
   let '(n, err) := r in
   if n <? 0 then throw (SysErr err)
   else if n =? 0 then throw ConnClosed
+  else if size <? n then stuck 2        (* the kernel never returns more than asked for *)
   else ret n.
 
 (* Receive(fd, data, size, timeout) *)
@@ -87,7 +89,9 @@ Definition sock_sendto (fd size dst timeout : Z) : M Z :=
 Definition recvfrom_now (fd size : Z) : M (Z * Z) :=
   r <- sys_recvfrom fd size ;;
   let '(n, err, src) := r in
-  if n <? 0 then throw (SysErr err) else ret (n, src).
+  if n <? 0 then throw (SysErr err)
+  else if size <? n then stuck 3        (* the kernel never returns more than asked for *)
+  else ret (n, src).
 
 Definition sock_recvfrom (fd size timeout : Z) : M (option (Z * Z)) :=
   ready <- wait_readable fd timeout ;;
